@@ -49,7 +49,11 @@ pub fn generic_and_family_stats(
             if !thorough && i > 0 {
                 continue;
             }
-            let mut case = Case::new(RegSrc::Prog(prog.clone()), spec.clone(), format!("D-generic settings {sname}"));
+            let mut case = Case::new(
+                RegSrc::Prog(prog.clone()),
+                spec.clone(),
+                format!("D-generic settings {sname}"),
+            );
             // several instantiations with different associated types are different shapes under one path
             case.dedup = true;
             check(&case, ctx);
@@ -59,7 +63,11 @@ pub fn generic_and_family_stats(
         max_members: 2,
         max_fields: 2,
         alphabet: FAM_ALPHABET.to_vec(),
-        forms: if thorough { ALL_MEMBER_FORMS.to_vec() } else { vec![MemberForm::NamedStruct] },
+        forms: if thorough {
+            ALL_MEMBER_FORMS.to_vec()
+        } else {
+            vec![MemberForm::NamedStruct]
+        },
         leads: if thorough { vec![0, 1, 2] } else { vec![0] },
         with_neighbours: false,
     };
@@ -70,7 +78,11 @@ pub fn generic_and_family_stats(
     };
     out.push(explore(&f, &budget, seed, |s, ctx| {
         let prog = s.program();
-        let mut case = Case::new(RegSrc::Prog(prog), settings[0].1.clone(), "D-family after de-duplication");
+        let mut case = Case::new(
+            RegSrc::Prog(prog),
+            settings[0].1.clone(),
+            "D-family after de-duplication",
+        );
         case.dedup = true;
         check(&case, ctx);
     }));
